@@ -1,11 +1,19 @@
-(* C15 - Connection loss at any byte is an orderly stop: the FRAMING half.
-   Model: Model/Framing.v (the repaired run_async: IncompleteReadError / ConnectionError -> break).
-   Not in this file (the other half of C15): the wrappers around the loop (start_io's
-   `finally: shutdown()`, the TCP connection callback, the client task) and write failures
-   (Endpoint.v with a writer failing from the k-th write). *)
+(* C15 - Connection loss or write failure at any byte is an orderly stop.
+   Models: Model/Framing.v (the repaired loops: IncompleteReadError / ConnectionError -> break in
+   run_async, ConnectionError -> break in run) and Model/Wrappers.v (start_io wrappers, the TCP
+   connection callback with try/finally + writer.close(), the client task, shutdown(), and the
+   control skeleton of _send_data).
+   Proved here: the framing clauses (C15_framing), the wrappers (C15_wrappers: resources
+   released and the call returns, for every stream, cut, reader and ending), and that _send_data
+   never lets an Exception of the writer, the serialiser or the error hook escape
+   (C15_send_data).  NOT proved here: "later inbound messages still take effect when writes fail"
+   as a statement over the endpoint state machine (failing_writer_core over Model/Endpoint.v,
+   owned elsewhere); that clause is decided by the correspondence run (harness/c15.py,
+   failing-writer sessions) on top of C15_send_data.  Only observed: real sockets (FIN/RST),
+   process exit, Server.close()/wait_closed(). *)
 From Coq Require Import NArith List Bool.
-From Pygls Require Import Base.Bytes Model.Framing Spec.FramingSpec
-  Proofs.FramingProofs Proofs.FramingProofsFrames Proofs.FramingProofsCut.
+From Pygls Require Import Base.Bytes Model.Framing Model.Wrappers Spec.FramingSpec
+  Proofs.FramingProofs Proofs.FramingProofsFrames Proofs.FramingProofsCut Proofs.FramingProofsWrap.
 Open Scope N_scope.
 
 Definition C15_framing_statement : Prop :=
@@ -13,7 +21,7 @@ Definition C15_framing_statement : Prop :=
      orderly close and a reset alike: exactly the frames complete within the prefix are handed
      over, each once and in order - followed, only for a blocking reader that sees EOF inside a
      body, by the truncated bytes it was given (which json.loads then rejects) - and the loop
-     ends as cut_term says: normally (the synchronous run() has no handler for a reset) *)
+     ends normally *)
   (forall k e ms cut, Forall (conforming k) ms -> cut <= len (frames ms) ->
      loop_whole k e (take cut (frames ms))
      = (cut_bodies (short_delivery k e) ms cut, Done (cut_term k e))) /\
@@ -26,8 +34,8 @@ Definition C15_framing_statement : Prop :=
   (forall k e ms cut, Forall (conforming k) ms -> cut <= len (frames ms) ->
      short_delivery k e = false ->
      exists n, fst (loop_whole k e (take cut (frames ms))) = firstn n (bodies_of ms)) /\
-  (* termination is normal for every reader at EOF, and for the two run_async readers on reset *)
-  (forall k e, (e = AtEOF \/ k <> Sync) -> cut_term k e = EndedNormally).
+  (* termination is normal for every reader, at EOF and on reset *)
+  (forall k e, cut_term k e = EndedNormally).
 
 Theorem C15_framing : C15_framing_statement.
 Proof.
@@ -36,7 +44,7 @@ Proof.
   - intros k e ms cut chunks H Hc E. rewrite chunk_independence, E.
     apply loop_on_prefix; [apply conforming_all, H|exact Hc].
   - intros k e ms cut H Hc Hs. apply no_partial_dispatch; [apply conforming_all, H|exact Hc|exact Hs].
-  - intros k e [E|H]; [rewrite E; destruct k; reflexivity|destruct k, e; try reflexivity; congruence].
+  - reflexivity.
 Qed.
 Print Assumptions C15_framing.
 
@@ -50,7 +58,7 @@ Example C15_cut_inside_body :
   loop_whole StdinPool AtReset (take 24 (frames [(LCl, [123;34;97;34;58;49;125])]))
     = ([], Done EndedNormally) /\
   loop_whole Sync AtReset (take 24 (frames [(LCl, [123;34;97;34;58;49;125])]))
-    = ([], Done (Raised EReset)).
+    = ([], Done EndedNormally).
 Proof. repeat split; vm_compute; reflexivity. Qed.
 
 (* Non-vacuity: a conforming two-frame stream, every one of its 70 cut offsets checked against
@@ -68,3 +76,65 @@ Example C15_nonvacuous :
           (map N.of_nat (seq 0 70)) = true /\
   msgs_ok (Stream 64) ex15 = true.
 Proof. repeat split; vm_compute; reflexivity. Qed.
+
+(* ---------- the wrappers ---------- *)
+
+Definition C15_wrappers_statement : Prop :=
+  (* for every stream of conforming frames, every cut, reader kind, ending and each of the four
+     repaired wrappers: the loop followed by its wrapper hands over exactly the complete frames
+     (plus a blocking reader's truncated body), leaves the server released (stop flag set, pool
+     shut down, asyncio server closed), returns to its caller, and - TCP callback - has closed
+     the connection's writer, which is what lets start_tcp return on Python 3.12 *)
+  (forall w k e ms cut, repaired w = true -> Forall (conforming k) ms -> cut <= len (frames ms) ->
+     exists s, serve w k e (take cut (frames ms))
+               = Some (cut_bodies (short_delivery k e) ms cut, (s, Returns)) /\
+               released s = true /\ (w = TcpCallback -> start_tcp_returns s = true)) /\
+  (* and whatever way the call of the loop ends, exception or not, the resources are released *)
+  (forall w l, repaired w = true -> released (fst (wrapper_run w l)) = true) /\
+  (forall l, start_tcp_returns (fst (wrapper_run TcpCallback l)) = true) /\
+  (* which endings make the wrapper return rather than propagate *)
+  (forall w l, repaired w = true ->
+     (snd (wrapper_run w l) = Returns <->
+      l = LNormal \/ ((w = StartIoAsync \/ w = StartIoSync) /\
+                      (l = LRaised XBrokenPipe \/ l = LRaised XKeyboardInterrupt)))).
+
+Theorem C15_wrappers : C15_wrappers_statement.
+Proof.
+  unfold C15_wrappers_statement. split; [|split; [|split]].
+  - intros w k e ms cut Hw H Hc. apply wrapper_releases; [exact Hw|apply conforming_all, H|exact Hc].
+  - intros w l Hw. apply wrapper_releases_any, Hw.
+  - intros l. apply tcp_callback_closes_writer.
+  - intros w l Hw. apply wrapper_returns_iff, Hw.
+Qed.
+Print Assumptions C15_wrappers.
+
+(* The code before the repairs does not satisfy these clauses (kernel-checked witnesses):
+   row 20 - the TCP callback had no finally and never closed its writer: a loop that raises
+   leaves the server unreleased, and even a loop that ends normally leaves start_tcp waiting;
+   fix_C15_4 - _start_io_sync passed run()'s None to asyncio.run: the call never returned
+   normally; fix_C15_3 / row 9 - the loops let ConnectionResetError escape, which the start_io
+   wrapper does not catch. *)
+Example C15_refuted_tcp_callback :
+  released (fst (wrapper_run TcpCallbackPinned (LRaised (XLoop EReset)))) = false /\
+  start_tcp_returns (fst (wrapper_run TcpCallbackPinned LNormal)) = false.
+Proof. split; reflexivity. Qed.
+Example C15_refuted_start_io_sync :
+  snd (wrapper_run StartIoSyncPinned LNormal) = Propagates XNotCoroutine /\
+  snd (wrapper_run StartIoSync (of_term (Raised EReset))) = Propagates (XLoop EReset).
+Proof. split; reflexivity. Qed.
+
+(* ---------- _send_data ---------- *)
+
+Definition C15_send_data_statement : Prop :=
+  forall dumps write hook,
+    dumps <> ORaisesBase -> write <> ORaisesBase -> hook <> ORaisesBase ->
+    snd (send_data dumps write hook) <> SDRaises.
+Theorem C15_send_data : C15_send_data_statement.
+Proof. exact send_data_never_raises. Qed.
+Print Assumptions C15_send_data.
+
+Example C15_send_data_nonvacuous :
+  send_data OOk ORaisesException ORaisesException = ([EvWrite; EvHook], SDNone) /\
+  send_data ORaisesException OOk OOk = ([EvHook], SDFalse) /\
+  send_data OOk ORaisesBase OOk = ([EvWrite], SDRaises).
+Proof. repeat split; reflexivity. Qed.
